@@ -500,11 +500,13 @@ def iter_slots(M, h):
 @pattern(HM + r'(iter|iter_mut)')
 def hm_iter(M, ctx, r):
     h = as_map(M, r)
+    def item(s):
+        if h.is_set: return Ref(Cell(_owned_key(s)))
+        return Tup([Ref(Cell(_owned_key(s))), Ref(s[2])])
     def gen():
         for s in iter_slots(M, h):
-            if h.is_set: yield Ref(Cell(_owned_key(s)))
-            else: yield Tup([Ref(Cell(_owned_key(s))), Ref(s[2])])
-    return Iter(gen(), 'hash::Iter')
+            yield item(s)
+    return Iter(gen(), 'hash::Iter', [(s[1], (lambda s=s: item(s))) for s in h.slots])
 
 @pattern(HM + r'(keys|into_keys)')
 def hm_keys(M, ctx, r):
@@ -513,7 +515,7 @@ def hm_keys(M, ctx, r):
     def gen():
         for s in iter_slots(M, h):
             yield _owned_key(s) if by_val else Ref(Cell(_owned_key(s)))
-    return Iter(gen(), 'hash::Keys')
+    return Iter(gen(), 'hash::Keys', [(s[1], (lambda s=s: _owned_key(s) if by_val else Ref(Cell(_owned_key(s))))) for s in h.slots])
 
 @pattern(HM + r'(values|values_mut|into_values)')
 def hm_values(M, ctx, r):
@@ -522,7 +524,7 @@ def hm_values(M, ctx, r):
     def gen():
         for s in iter_slots(M, h):
             yield s[2].v if by_val else Ref(s[2])
-    return Iter(gen(), 'hash::Values')
+    return Iter(gen(), 'hash::Values', [(s[1], (lambda s=s: s[2].v if by_val else Ref(s[2]))) for s in h.slots])
 
 @pattern(HM + r'drain')
 def hm_drain(M, ctx, r):
